@@ -48,13 +48,19 @@ def read_schedule(prog, enums, fn_name):
     if len(cands) != 1:
         return [], [], [f'{fn_name}: {len(cands)} candidate bodies']
     fn = cands[0]
-    records = []; calls = []
+    records = []; calls = []; fresh = {}
 
     def passthrough(m, callee, args):
         calls.append(re.sub(r'::<.*', '', callee)); return args[0]
 
     def add_systems(m, callee, args):
         records.append((text_of(args[1]), to_cfg(args[2]))); return args[0]
+
+    def world_query(m, callee, args):
+        # what the App / World already contains when the plugin is built is not under the plugin's control: arbitrary
+        name = re.sub(r'\W+', '_', re.sub(r'^.*?(World|App)::', '', callee))[:60]
+        fresh.setdefault(name, z3.Bool('pre_' + name))
+        return Sc('bool', fresh[name])
 
     def wrap(kind):
         def h(m, callee, args):
@@ -69,17 +75,29 @@ def read_schedule(prog, enums, fn_name):
         return h
 
     R = re.compile
-    ov = [(R(r'App::add_systems'), add_systems)]
+    ov = [(R(r'App::add_systems'), add_systems),
+          (R(r'(World|App)::(contains_\w+|is_\w+|has_\w+)'), world_query)]
     for k in ('before', 'after', 'run_if', 'distributive_run_if', 'in_set', 'chain', 'ambiguous_with', 'ambiguous_with_all', 'into_configs', 'after_ignore_deferred', 'before_ignore_deferred'):
         ov.append((R(r'IntoSystemConfigs<.*>>::' + k + r'\b|IntoSystemConfigs::' + k + r'\b'), wrap(k)))
     ov.append((R(r'bevy::app::App::\w+'), passthrough))
     m = Machine(prog, enums, overrides=ov)
-    app = Ref(Cell(Agg('App', [])), 0)
-    args = [app] if len(fn.args) == 1 else [Ref(Cell(Agg('AnimationPlugin', [])), 0), app]
-    rs = [r for r in m.explore(lambda mm: mm.call_fn(fn, args)) if r.outcome != 'infeasible']
+
+    def h(mm):
+        del records[:]; del calls[:]
+        app = Ref(Cell(Agg('App', [Agg('World', []), Agg('Runner', []), Agg('Schedules', [])])), 0)
+        args = [app] if len(fn.args) == 1 else [Ref(Cell(Agg('AnimationPlugin', [])), 0), app]
+        mm.call_fn(fn, args)
+        return (list(records), list(calls))
+
+    rs = [r for r in m.explore(h) if r.outcome != 'infeasible']
     problems = [f'{fn_name}: {r.outcome} {r.msg}' for r in rs if r.outcome != 'ok']
-    if len(rs) != 1: problems.append(f'{fn_name}: {len(rs)} execution paths')
-    return records, calls, problems, m
+    oks = [r for r in rs if r.outcome == 'ok']
+    # paths: [(path condition, records, calls)]; the first path's records are returned for callers that expect a single path
+    paths = [(r.pc, r.value[0], r.value[1]) for r in oks]
+    m.schedule_paths = paths; m.schedule_fresh = fresh
+    if not oks:
+        return [], [], problems + [f'{fn_name}: no successful execution path'], m
+    return oks[0].value[0], oks[0].value[1], problems, m
 
 
 def condition_can_be_false(prog, enums, cond):
